@@ -30,11 +30,11 @@ import (
 func init() { register("c10", runC10) }
 
 const (
-	c10Credits       = 100 // messages in flight per recipient in a stable phase (server channel: 256)
-	c10CreditWait    = 20 * time.Second
-	c10SettleWait    = 30 * time.Second
-	c10MarkerWait    = 45 * time.Second
-	c10JoinWait      = 20 * time.Second
+	c10Credits        = 100 // messages in flight per recipient in a stable phase (server channel: 256)
+	c10CreditWait     = 20 * time.Second
+	c10SettleWait     = 30 * time.Second
+	c10MarkerWait     = 45 * time.Second
+	c10JoinWait       = 20 * time.Second
 	c10SpoofSidPerMil = 1 // known class is sampled: ~0.1 % of the routable sends + one forced witness per session
 )
 
@@ -85,6 +85,73 @@ type c10Send struct {
 	Pay       c10Payload    `json:"payload"`
 }
 
+// c10FC is the flow-control window of one recipient in a stable phase. A message
+// (author a, author counter n) destined to the recipient is "in flight" until the
+// recipient has received it or any later message of the same author (FIFO per
+// author): a lost message therefore does not leak window space for ever.
+type c10FC struct {
+	mu       sync.Mutex
+	pending  map[int][]int // author conn -> counters n still unacknowledged
+	inflight int
+	lost     bool // the window stayed full for c10CreditWait: in-flight bound no longer guaranteed
+}
+
+func (f *c10FC) reset() {
+	f.mu.Lock()
+	f.pending, f.inflight, f.lost = map[int][]int{}, 0, false
+	f.mu.Unlock()
+}
+
+func (f *c10FC) acquire(author, n int) bool {
+	deadline := time.Now().Add(c10CreditWait)
+	for {
+		f.mu.Lock()
+		if f.lost {
+			f.mu.Unlock()
+			return false
+		}
+		if f.inflight < c10Credits {
+			if f.pending == nil {
+				f.pending = map[int][]int{}
+			}
+			f.pending[author] = append(f.pending[author], n)
+			f.inflight++
+			f.mu.Unlock()
+			return true
+		}
+		if time.Now().After(deadline) {
+			f.lost = true
+			f.mu.Unlock()
+			return false
+		}
+		f.mu.Unlock()
+		time.Sleep(100 * time.Microsecond)
+	}
+}
+
+// ack: the recipient received counter n of author; everything up to n is no longer in flight.
+func (f *c10FC) ack(author, n int) {
+	f.mu.Lock()
+	p := f.pending[author]
+	k := 0
+	for k < len(p) && p[k] <= n {
+		k++
+	}
+	if k > 0 {
+		f.pending[author] = p[k:]
+		f.inflight -= k
+	}
+	f.mu.Unlock()
+}
+
+func (f *c10FC) pendingOf(author int) int {
+	f.mu.Lock()
+	defer f.mu.Unlock()
+	return len(f.pending[author])
+}
+
+func (f *c10FC) isLost() bool { f.mu.Lock(); defer f.mu.Unlock(); return f.lost }
+
 type c10Conn struct {
 	Idx    int
 	Sess   int
@@ -102,7 +169,7 @@ type c10Conn struct {
 	Zombie     atomic.Bool   // a later same-id connection was upgraded: the hub no longer routes to this one
 	closed     atomic.Bool
 
-	sem    chan struct{}
+	fc     c10FC
 	sendMu sync.Mutex
 	n      int
 	perTo  map[string]int
@@ -156,7 +223,7 @@ type c10Round struct {
 	conns         []*c10Conn
 	events        []c10Event
 	phases        []c10Phase
-	creditTimeout map[int]bool
+	creditTimeout map[[2]int]bool
 	inconcl       []string
 
 	gid atomic.Uint64
@@ -169,7 +236,7 @@ var c10Types = []string{"offer", "answer", "ice_candidate", "ice_candidates", "i
 // connections
 
 func (rd *c10Round) newConn(sess int, id, role, how string) *c10Conn {
-	c := &c10Conn{Sess: sess, PeerID: id, Role: role, How: how, sem: make(chan struct{}, c10Credits), perTo: map[string]int{}}
+	c := &c10Conn{Sess: sess, PeerID: id, Role: role, How: how, perTo: map[string]int{}}
 	rd.mu.Lock()
 	c.Idx = len(rd.conns)
 	rd.conns = append(rd.conns, c)
@@ -222,17 +289,14 @@ func (rd *c10Round) dial(sess int, id, role, how string) *c10Conn {
 	return c
 }
 
-// onRecv runs in the reader goroutine: gives the credit back for flow-controlled messages.
+// onRecv runs in the reader goroutine: acknowledges the flow-control window.
 func (c *c10Conn) onRecv(r vk.WSRecv) {
 	if r.BadJSON || len(r.Env.Payload) == 0 {
 		return
 	}
 	var p c10Payload
-	if json.Unmarshal(r.Env.Payload, &p) == nil && p.VF == "c10" && p.C == 1 {
-		select {
-		case <-c.sem:
-		default:
-		}
+	if json.Unmarshal(r.Env.Payload, &p) == nil && p.VF == "c10" {
+		c.fc.ack(p.A, p.N)
 	}
 }
 
@@ -366,12 +430,11 @@ func (rd *c10Round) send(c *c10Conn, op c10Op, phase int, stable bool, dest []*c
 	if stable && routable && len(dest) > 0 {
 		p.C = 1
 		for _, d := range dest {
-			select {
-			case d.sem <- struct{}{}:
+			if d.fc.acquire(c.Idx, p.N) {
 				got = append(got, d)
-			case <-time.After(c10CreditWait):
+			} else {
 				rd.mu.Lock()
-				rd.creditTimeout[d.Idx] = true
+				rd.creditTimeout[[2]int{phase, d.Idx}] = true
 				rd.mu.Unlock()
 			}
 		}
@@ -396,12 +459,7 @@ func (rd *c10Round) send(c *c10Conn, op c10Op, phase int, stable bool, dest []*c
 	if err != nil {
 		rec.WriteErr = true
 		c.dead.Store(true)
-		for _, d := range got { // nothing will arrive: give the credits back
-			select {
-			case <-d.sem:
-			default:
-			}
-		}
+		_ = got // the window entries of a dead author stay pending; recipients are excluded via WriteErr
 	}
 	c.sends = append(c.sends, rec)
 	return err == nil
@@ -666,6 +724,11 @@ func (rd *c10Round) runStable(r *vk.Rng, phase int) {
 			ph.Members[s] = append(ph.Members[s], m.Idx)
 		}
 	}
+	for _, ms := range members {
+		for _, m := range ms {
+			m.fc.reset()
+		}
+	}
 	var wg sync.WaitGroup
 	for s := range members {
 		ms := members[s]
@@ -705,50 +768,48 @@ func (rd *c10Round) runStable(r *vk.Rng, phase int) {
 		}
 	}
 	wg.Wait()
-	// wait (counting, not timing) until every member has every marker sent to it and its fence; watchdog => inconclusive
+	// completion by counting, not timing: the phase is complete when no recipient window holds a pending
+	// message (each author's last message to each recipient has arrived). While something is pending the
+	// author sends a further marker (FIFO: a later arrival acknowledges everything before it, lost or not).
+	// The watchdog only yields inconclusive.
 	deadline := time.Now().Add(c10MarkerWait)
-	for s := range members {
-		ms := members[s]
-		want := map[int]map[uint64]bool{}
-		for _, a := range ms {
-			for i := range a.sends {
-				sd := &a.sends[i]
-				if sd.Phase == phase && (sd.Kind == "marker" || sd.Kind == "fence") && !sd.WriteErr {
-					for _, d := range sd.Dest {
-						if want[d] == nil {
-							want[d] = map[uint64]bool{}
-						}
-						want[d][sd.G] = true
+	wait := 100 * time.Millisecond
+	nextMarker := time.Now().Add(wait)
+	for {
+		type pr struct{ a, r *c10Conn }
+		var open []pr
+		for _, ms := range members {
+			for _, r := range ms {
+				if r.fc.isLost() || !r.open() {
+					continue
+				}
+				for _, a := range ms {
+					if !a.dead.Load() && a.open() && r.fc.pendingOf(a.Idx) > 0 {
+						open = append(open, pr{a, r})
 					}
 				}
 			}
 		}
-		for _, m := range ms {
-			w := want[m.Idx]
-			if len(w) == 0 {
-				continue
-			}
-			left := time.Until(deadline)
-			if left < time.Second {
-				left = time.Second
-			}
-			missing := len(w)
-			_, ok := m.ws.WaitFor(func(rec vk.WSRecv) bool {
-				if rec.BadJSON || len(rec.Env.Payload) == 0 {
-					return false
-				}
-				var p c10Payload
-				if json.Unmarshal(rec.Env.Payload, &p) == nil && p.VF == "c10" && w[p.G] {
-					delete(w, p.G)
-					missing--
-				}
-				return missing <= 0
-			}, left)
-			if !ok {
-				ph.Note = "marker wait incomplete"
-				rd.note(fmt.Sprintf("stable phase %d: connection %d still misses %d markers after the watchdog (or its socket ended)", phase, m.Idx, missing))
-			}
+		if len(open) == 0 {
+			break
 		}
+		if time.Now().After(deadline) {
+			ph.Note = "marker wait incomplete"
+			rd.note(fmt.Sprintf("stable phase %d: %d author->recipient pairs still pending after the watchdog", phase, len(open)))
+			break
+		}
+		if time.Now().After(nextMarker) {
+			for _, o := range open {
+				op := c10Op{Kind: "marker", Target: "same-session", To: o.r.PeerID, FromClass: "omitted", SidClass: "omitted", Type: "x-marker"}
+				if o.a == o.r {
+					op.Target = "self"
+				}
+				rd.send(o.a, op, phase, true, []*c10Conn{o.r})
+			}
+			wait *= 2
+			nextMarker = time.Now().Add(wait)
+		}
+		time.Sleep(2 * time.Millisecond)
 	}
 	ph.End = vk.MonoNow()
 	rd.mu.Lock()
@@ -931,8 +992,7 @@ func c10PlanIDs(r *vk.Rng, s, total int) []string {
 
 func c10RunRound(e *Env, cfg c10RoundCfg, agg *c10Agg) {
 	r := vk.NewRng(cfg.Seed)
-	rd := &c10Round{e: e, cfg: cfg, creditTimeout: map[int]bool{}}
-	e.R.Eval()
+	rd := &c10Round{e: e, cfg: cfg, creditTimeout: map[[2]int]bool{}}
 	flags := []string{"--ws-msgs-per-sec", "0", "--ws-connects-per-min", "0", "--session-creates-per-min", "0", "--max-receivers-per-sender", "0"}
 	srv, err := vk.StartServ(filepath.Join(e.BinDir, "thruserv"), flags, filepath.Join(e.Work, fmt.Sprintf("c10-serv-%03d.log", cfg.Round)))
 	if err != nil {
@@ -1005,28 +1065,28 @@ func c10RunRound(e *Env, cfg c10RoundCfg, agg *c10Agg) {
 // offline oracle
 
 type c10Agg struct {
-	mu         sync.Mutex
-	sends      map[string]int // by kind/target
-	hostile    map[string]int // by from/sid class
-	delivered  map[string]int
-	checked    int
-	errorsSeen int
-	errorsOK   int
-	mustReport int
-	events     map[string]int
-	conns      int
-	sessions   int
-	rounds     int
-	pairs      int
-	pairsDone  int
-	covered    int
-	stableOK   int
-	stableUns  int
-	serverEnvs map[string]int
+	mu               sync.Mutex
+	sends            map[string]int // by kind/target
+	hostile          map[string]int // by from/sid class
+	delivered        map[string]int
+	checked          int
+	errorsSeen       int
+	errorsOK         int
+	mustReport       int
+	events           map[string]int
+	conns            int
+	sessions         int
+	rounds           int
+	pairs            int
+	pairsDone        int
+	covered          int
+	stableOK         int
+	stableUns        int
+	serverEnvs       map[string]int
 	invalidDelivered int
-	selfEcho   int
-	serverClosed int
-	maxClients int
+	selfEcho         int
+	serverClosed     int
+	maxClients       int
 }
 
 func c10NewAgg() *c10Agg {
@@ -1153,17 +1213,15 @@ func c10Judge(rd *c10Round, agg *c10Agg) {
 					local.selfEcho++
 				}
 			}
-			// 5. no duplicate
+			// 5. no duplicate; 6. per (author -> recipient) order
 			if seen[p.G] {
 				e.R.Violate("duplicate:"+opk, "the same message was delivered twice to one connection", caseOf(rc, s, rec), nil)
-			}
-			seen[p.G] = true
-			// 6. per (author -> recipient) order
-			if p.N <= lastN[s.A] {
+			} else if p.N <= lastN[s.A] {
 				e.R.Violate("reorder:"+opk, fmt.Sprintf("message n=%d of connection %d arrived after n=%d", p.N, s.A, lastN[s.A]), caseOf(rc, s, rec), nil)
 			} else {
 				lastN[s.A] = p.N
 			}
+			seen[p.G] = true
 			// 7. content
 			if p != s.Pay || (s.Routable && env.Type != s.Type) {
 				e.R.Violate("content-altered:"+opk, "payload or type differs from what the author sent", caseOf(rc, s, rec), nil)
@@ -1316,7 +1374,7 @@ func c10Judge(rd *c10Round, agg *c10Agg) {
 					if len(list) == 0 {
 						continue
 					}
-					if rd.creditTimeout[ri] {
+					if rd.creditTimeout[[2]int{pi, ri}] {
 						continue
 					}
 					if re := rc.ws.ReadEndAt(); re > 0 && re < ph.End {
@@ -1420,6 +1478,7 @@ func c10Judge(rd *c10Round, agg *c10Agg) {
 	for _, v := range local.sends {
 		total += v
 	}
+	e.R.EvalN(local.checked) // one evaluation per delivered envelope judged by the oracle
 	e.R.Sample(map[string]any{"round": rd.cfg, "connections": local.conns, "messages_sent": total, "envelopes_checked": local.checked,
 		"peer_not_found_checked": local.errorsSeen, "churn_events": local.events, "stable_pairs_judged": local.pairs,
 		"stable_pairs_with_marker": local.pairsDone, "messages_covered_by_no_loss": local.covered, "phases": len(rd.phases)})
